@@ -247,12 +247,14 @@ SeqMap(Op(_), s) == [i \in 1..Len(s) |-> Op(s[i])]
 RECURSIVE Concat(_)
 Concat(ss) == IF Len(ss) = 0 THEN <<>> ELSE Head(ss) \o Concat(Tail(ss))
 
-AtomicCore == <<"anyAtomicType", "untypedAtomic", "string", "token", "decimal", "integer", "int",
-                "nonNegativeInteger", "float", "double", "boolean", "duration", "dayTimeDuration",
-                "anyURI", "QName", "numeric">>
-AtomicRest == <<"normalizedString", "NCName", "long", "short", "positiveInteger", "unsignedByte", "dateTime", "date",
+(* the quick core contains signed and unsigned bounded integer types whose value ranges are nested
+   although the types are NOT derived from each other (unsignedByte 0..255 inside short, ...) *)
+AtomicCore == <<"anyAtomicType", "untypedAtomic", "string", "token", "decimal", "integer", "int", "short",
+                "nonNegativeInteger", "unsignedShort", "unsignedByte", "float", "double", "boolean",
+                "duration", "dayTimeDuration", "anyURI", "QName", "numeric">>
+AtomicRest == <<"normalizedString", "NCName", "long", "positiveInteger", "dateTime", "date",
                 "language", "NMTOKEN", "Name", "ID", "IDREF", "ENTITY", "nonPositiveInteger", "negativeInteger",
-                "byte", "unsignedLong", "unsignedInt", "unsignedShort", "yearMonthDuration", "time",
+                "byte", "unsignedLong", "unsignedInt", "yearMonthDuration", "time",
                 "gYearMonth", "gYear", "gMonthDay", "gDay", "gMonth", "hexBinary", "base64Binary", "NOTATION">>
 AtomicNames == IF Universe = "quick" THEN AtomicCore ELSE AtomicCore \o AtomicRest
 
